@@ -12,7 +12,8 @@ EXTENDS WireOps
 
 CONSTANTS Growth,     \* nesting steps on top of the first primitive
           Mode,       \* "values": case = [ty, val, hdr]; "bytes": case = [ty, bits, hdr]
-          MaxBits     \* "bytes" mode: bit strings of length 0, 8, .., MaxBits
+          MaxBits,    \* "bytes" mode: bit strings of length 0, 8, .., MaxBits
+          Wide        \* TRUE: also integers of 9..23 bits that start at every bit offset 1..7 of a byte
 
 VARIABLES ph, case, out
 vars == <<ph, case, out>>
@@ -71,7 +72,13 @@ Complete ==
               /\ case' = [ty |-> case.ty, bits |-> bits, hdr |-> hdr]
               /\ out' = DecOut(case')
   /\ ph' = 100
-Next == Pick \/ Grow \/ Complete
+\* wider integers behind a sub-byte head: every combination of start offset and width modulo 8, values with the top bit set
+WidePrims == { U(9, "s"), U(12, "t"), U(15, "s"), I(11), I(14), U(17, "s"), U(23, "t") }
+WideTypes(dummy) == { St(<<U(k, "t"), p>>) : k \in 1..7, p \in WidePrims }
+                    \cup { St(<<U(k, "t"), Fix(p, 2), Bool>>) : k \in {3, 5}, p \in WidePrims }
+                    \cup { Un(<<p, U(k, "t")>>) : k \in {3}, p \in WidePrims }
+PickWide == ph = 0 /\ Wide /\ \E t \in WideTypes(0) : case' = [ty |-> t] /\ out' = 0 /\ ph' = Growth + 1
+Next == Pick \/ PickWide \/ Grow \/ Complete
 Spec == Init /\ [][Next]_vars
 
 Done == ph = 100
